@@ -29,6 +29,8 @@ pub struct WalkCfg {
     pub filter: bool,
     pub hidden: bool,
     pub use_ignore: bool,
+    /// also read the ignore files of the roots' parent directories
+    pub parents: bool,
     pub roots: Vec<String>,
 }
 
@@ -38,7 +40,7 @@ impl WalkCfg {
             "max_depth": self.max_depth, "max_filesize": self.max_filesize,
             "follow_links": self.follow_links, "same_file_system": self.same_file_system,
             "filter_entry": self.filter, "hidden": self.hidden,
-            "use_ignore_file": self.use_ignore, "roots": self.roots,
+            "use_ignore_file": self.use_ignore, "parents": self.parents, "roots": self.roots,
         })
     }
     pub fn from_json(v: &Value) -> WalkCfg {
@@ -50,6 +52,7 @@ impl WalkCfg {
             filter: v["filter_entry"].as_bool().unwrap_or(false),
             hidden: v["hidden"].as_bool().unwrap_or(false),
             use_ignore: v["use_ignore_file"].as_bool().unwrap_or(false),
+            parents: v["parents"].as_bool().unwrap_or(false),
             roots: v["roots"].as_array().map(|a| a.iter().map(|x| x.as_str().unwrap_or("").to_string()).collect()).unwrap_or_default(),
         }
     }
@@ -63,7 +66,7 @@ impl WalkCfg {
         b.standard_filters(false)
             .hidden(self.hidden)
             .ignore(self.use_ignore)
-            .parents(false)
+            .parents(self.parents)
             .max_depth(self.max_depth)
             .max_filesize(self.max_filesize)
             .follow_links(self.follow_links)
@@ -118,6 +121,7 @@ pub fn gen_cfg(rng: &mut Rng, tree: &Tree) -> WalkCfg {
         filter: rng.bool(),
         hidden: rng.bool(),
         use_ignore: rng.chance(1, 4),
+        parents: rng.chance(1, 2),
         roots,
     }
 }
@@ -284,6 +288,7 @@ fn option_sig(cfg: &WalkCfg) -> String {
     if cfg.filter { s.push("filter"); }
     if cfg.hidden { s.push("hidden"); }
     if cfg.use_ignore { s.push("ignore"); }
+    if cfg.use_ignore && cfg.parents { s.push("parents"); }
     if cfg.roots.len() > 1 { s.push("roots"); }
     s.join("+")
 }
@@ -412,6 +417,22 @@ fn add_ignore_files(rng: &mut Rng, tree: &mut Tree) {
             text.push_str(rng.pick(RULES));
             text.push('\n');
         }
+        // anchored paths of real entries at least two levels below this
+        // file: they mean the same whichever roots are walked
+        let pre = if d.is_empty() { String::new() } else { format!("{}/", d) };
+        let below: Vec<String> = tree
+            .nodes
+            .iter()
+            .filter(|n| n.path.starts_with(&pre) && n.path[pre.len()..].contains('/'))
+            .map(|n| n.path[pre.len()..].to_string())
+            .collect();
+        for _ in 0..rng.below(3) {
+            if !below.is_empty() {
+                text.push_str(rng.pick(&["/", "", "!/"]));
+                text.push_str(rng.pick_ref(&below[..]).as_str());
+                text.push('\n');
+            }
+        }
         let path = if d.is_empty() { ".ignore".to_string() } else { format!("{}/.ignore", d) };
         if tree.nodes.iter().any(|n| n.path == path) {
             continue;
@@ -445,6 +466,12 @@ pub fn run(ctx: &Ctx) -> Report {
             let mut cfg = gen_cfg(rng, &tree);
             if has_ignore_files && rng.chance(1, 2) {
                 cfg.use_ignore = true;
+            }
+            // several roots below a directory with an ignore file: the
+            // parents' rules must reach every root alike
+            if has_ignore_files && cfg.roots.len() > 1 && rng.chance(3, 4) {
+                cfg.use_ignore = true;
+                cfg.parents = true;
             }
             let threads: Vec<usize> = if thorough {
                 vec![1, 2, 3, 4, 8, 16]
